@@ -194,6 +194,32 @@ def check_error(d, root, X, e, hop, problems, depth=0, base="", id_of=None):
             check_error(d, root, X, c, hop, problems, depth + 1, base, id_of)
 
 
+def detached_problems(d, S, X, v, hop):
+    """Errors a caller keeps while everything else is dropped: every context error on its own (its parents
+    are not referenced by the caller any more) and the error best_match picks (what jsonschema.validate raises)."""
+    problems = []
+    kept = []
+
+    def collect(e):
+        for c in e.context:
+            kept.append((c, list(c.absolute_path), list(c.absolute_schema_path), c.json_path))
+            collect(c)
+    for e in v.iter_errors(X):
+        collect(e)
+    e = None
+    for c, ap, asp, jp in kept:
+        if list(c.absolute_path) != ap or list(c.absolute_schema_path) != asp or c.json_path != jp:
+            problems.append("detached context error: absolute paths changed once its top-level error was dropped")
+            break
+    del kept
+    best = exceptions.best_match(v.iter_errors(X))
+    if best is not None:
+        sub = []
+        check_error(d, S, X, best, hop, sub)
+        problems += ["detached best_match error: " + p for p in sub[:3]]
+    return problems
+
+
 def check_case(d, S, X, v=None, hop=None, with_reference=True):
     if v is None:
         v = _e1.CLS[d](S)
@@ -211,6 +237,13 @@ def check_case(d, S, X, v=None, hop=None, with_reference=True):
         except Exception as ex:         # an error object so malformed that looking at it fails
             problems.append("invariant evaluation raised %s" % type(ex).__name__)
         nerr += 1 + _count_ctx(e)
+    if not problems and any(e.context for e in errors):
+        del errors
+        try:
+            problems += detached_problems(d, S, X, v, hop)
+        except Exception as ex:
+            problems.append("detached: invariant evaluation raised %s" % type(ex).__name__)
+        errors = list(v.iter_errors(X))
     if with_reference:
         try:
             exp = _e1.sort_locs(spec.errs(d, S, X))
@@ -278,7 +311,9 @@ def plan(ctx):
                  "distinct leaves, plus one instance per JSON type); every error and every context error "
                  "(transitively) is checked against the path/keyword/value/parent/json_path invariants, the "
                  "top-level location multiset against the reference evaluator, and the context of anyOf/oneOf/"
-                 "draft-3 type against the reference applied to each branch; non-trivial = case with >= 1 error"),
+                 "draft-3 type against the reference applied to each branch; where errors have context, every context "
+                 "error is re-examined after the top-level errors were dropped, and so is the error best_match picks "
+                 "(what jsonschema.validate raises); non-trivial = case with >= 1 error"),
         "bounds": dict(sizes, universe=len(get_ud()), tier=ctx.tier),
         "assumptions": ["reference evaluator for expected locations; the three documented exceptions (draft 3 "
                         "required, propertyNames, false schema) are modelled as the property words them"],
